@@ -556,6 +556,39 @@ def _max_ident(dt):
     return S.int_range(dt)[1]
 
 
+@prim("reduce")
+def _reduce_generic(ctx, eqn, ins):
+    """lax.reduce with an arbitrary computation and init values: a left fold of the computation over
+    the reduced positions, starting from the init value (so a non-identity init is part of the result)"""
+    n = len(ins) // 2
+    ops, inits = ins[:n], ins[n:]
+    dims = tuple(int(d) for d in eqn.params["dimensions"])
+    jx = eqn.params["jaxpr"]
+    consts = list(eqn.params.get("consts") or ())
+    if consts:
+        raise NotEncodable("reduce computation with constants")
+    shp = ops[0].shape
+    keep = [i for i in range(len(shp)) if i not in dims]
+    out_shape = tuple(shp[i] for i in keep)
+    red_shape = tuple(shp[i] for i in dims)
+    if int(np.prod(shp)) > 4096:
+        raise NotEncodable("reduce too large")
+    outs = [np.empty(out_shape, dtype=object) for _ in range(n)]
+    for oi in np.ndindex(*out_shape) if out_shape else [()]:
+        acc = [T(t.dtype, np.asarray(t.a.reshape(-1)[0], dtype=object).reshape(())) for t in inits]
+        for ri in np.ndindex(*red_shape) if red_shape else [()]:
+            idx = [0] * len(shp)
+            for k, i in enumerate(keep):
+                idx[i] = oi[k]
+            for k, i in enumerate(dims):
+                idx[i] = ri[k]
+            elems = [T(o.dtype, np.asarray(o.a[tuple(idx)], dtype=object).reshape(())) for o in ops]
+            acc = eval_jaxpr(ctx, jx, [], acc + elems)
+        for k in range(n):
+            outs[k][oi] = acc[k].a.reshape(-1)[0]
+    return [T(ops[k].dtype, outs[k]) for k in range(n)]
+
+
 @prim("reduce_sum")
 def _rsum(ctx, eqn, ins):
     x = ins[0]
